@@ -51,12 +51,38 @@ def gen_fullrelief(rnd, idn):
                 shards=shards, active=[1, 2, 3], explore=explore, failScale=0)
 
 
+def gen_procfull(rnd, idn):
+    """Directed family: every shard is (nearly) full in one dimension only, and an unscraped healthy target needs room in
+    exactly that dimension - e.g. a target whose samples are all dropped by metric relabeling (series 0, total > 0)."""
+    maxHead = rnd.choice([0, 10, 10])
+    maxProc = rnd.choice([20, 30])
+    dim = 'proc' if maxHead == 0 or rnd.random() < 0.6 else 'head'
+    n = rnd.choice([1, 2, 3])
+    shards = []
+    for i in range(n):
+        if dim == 'proc':
+            e = dict(t=i + 1, state='', health='up', times=rnd.choice([3, 7]), series=rnd.choice([1, 2]), total=maxProc - rnd.choice([2, 3, 4]))
+        else:
+            e = dict(t=i + 1, state='', health='up', times=rnd.choice([3, 7]), series=rnd.choice([8, 9]), total=rnd.choice([9, 10]))
+        shards.append(dict(mode='ok', report=[e], head=e['series'], proc=e['total'], idle='none', postFail=False))
+    new = n + 1
+    if dim == 'proc':
+        x = dict(t=new, state='', health='up', times=0, series=rnd.choice([0, 0, 1]), total=rnd.choice([5, 6, 8]))
+    else:
+        x = dict(t=new, state='', health='up', times=0, series=rnd.choice([3, 4]), total=rnd.choice([3, 4]))
+    explore = [x] + [dict(t=s['report'][0]['t'], state='', health='up', times=0, series=s['report'][0]['series'], total=s['report'][0]['total'])
+                     for s in shards if rnd.random() < 0.5]
+    return dict(id=idn, fam='procfull', opts=dict(maxHead=maxHead, maxProc=maxProc, minShard=rnd.choice([0, 1]), maxShard=rnd.choice([n + 1, 9]),
+                                                  maxIdle=rnd.choice([0, 1]), noAlleviate=rnd.random() < 0.2),
+                shards=shards, active=list(range(1, new + 1)), explore=explore, failScale=0)
+
+
 def gen_input(rnd, idn, maxN=3, maxK=3):
     """One cycle input.  A family biases the draw towards one mechanism (the plain family is the
     unbiased mixture); every family still randomises everything else."""
     fam = rnd.choice(['plain', 'plain', 'scaledown', 'scaledown', 'relief', 'oversized', 'handover', 'unsynced', 'fullrelief'])
     if fam == 'fullrelief' and maxN >= 3 and maxK >= 3:
-        return gen_fullrelief(rnd, idn)
+        return gen_fullrelief(rnd, idn) if rnd.random() < 0.6 else gen_procfull(rnd, idn)
     n = min(maxN, rnd.choice([1, 2, 2, 3, 3, 3] if maxN == 3 else [1, 2, 3, 3, 4, 4]))
     if fam in ('scaledown', 'unsynced', 'relief'):
         n = min(maxN, rnd.choice([2, 3, 3, maxN]))
@@ -194,7 +220,7 @@ def canon_out(o, with_global=False):
     """Canonical form of an outcome for membership comparison."""
     posts = []
     for p in o['posts']:
-        ts = sorted((x['t'], x['state'], x['series']) for x in (p.get('targets') or []))
+        ts = sorted((x['t'], x['state'], x['series'], x.get('total', 0)) for x in (p.get('targets') or []))
         posts.append((bool(p['sent']), bool(p['ok']), tuple(ts)))
     reqs = tuple(tuple(r or []) for r in o['reqs'])
     g = []
@@ -213,6 +239,7 @@ def cfg_text(infile, outfile, consts, invariants):
               '  TooBigFirst = %s' % consts['TooBigFirst'],
               '  TieBreakByOrder = %s' % consts['TieBreakByOrder'],
               '  RevertOrphanTransfer = %s' % consts['RevertOrphanTransfer'],
+              '  ZeroNeedsPlace = %s' % consts.get('ZeroNeedsPlace', 'TRUE'),
               '  InputSet <- Inputs',
               '  InFile = "%s"' % infile,
               '  OutFile = "%s"' % outfile,
